@@ -564,6 +564,24 @@ class L1Reward(Rewards):
         am = self._argmax
         return f"L1Reward({try_else(lambda:minimize(am),f'{am:.5f}')})"
 
+def _as_literal(state):
+    """The repr of `state` when literal_eval gives `state` back from it and otherwise `state` itself.
+
+    Reward functions pickle as text to stay small. That only works for plain python values: the repr of
+    inf and nan (and of objects such as Categorical) is not a literal.
+    """
+    def is_literal(x):
+        c = x.__class__
+        if c is float: return x == x and x not in (float('inf'),float('-inf'))
+        if c is int or c is str or c is bool or x is None: return True
+        if c is list or c is tuple: return all(map(is_literal,x))
+        if c is dict: return all(map(is_literal,x.keys())) and all(map(is_literal,x.values()))
+        return False
+    return repr(state) if is_literal(state) else state
+
+def _of_literal(state):
+    return literal_eval(state) if state.__class__ is str else state
+
 class BinaryReward(Rewards):
     """A reward function with two values."""
     __slots__ = ('_argmax','_value')
@@ -592,10 +610,10 @@ class BinaryReward(Rewards):
             o._value == self._value)
 
     def __getstate__(self):
-        return repr((self._argmax,) if self._value == 1 else (self._argmax,self._value))
+        return _as_literal((self._argmax,) if self._value == 1 else (self._argmax,self._value))
 
     def __setstate__(self,args):
-        args = literal_eval(args)
+        args = _of_literal(args)
         self._argmax,self._value = (args[0],1) if len(args) == 1 else args
 
     def __repr__(self) -> str:
@@ -633,10 +651,10 @@ class HammingReward(Rewards):
         return create_shape(value,shape)
 
     def __getstate__(self):
-        return repr(self._argmax)
+        return _as_literal(self._argmax)
 
     def __setstate__(self,args):
-        self._argmax = literal_eval(args)
+        self._argmax = _of_literal(args)
 
     def __repr__(self) -> str:
         am = self._argmax
@@ -704,7 +722,7 @@ class DiscreteReward(Rewards):
             o._default == self._default)
 
     def __getstate__(self):
-        return repr((self._state,self._default))
+        return _as_literal((self._state,self._default))
 
     def __setstate__(self,args):
-        self._state,self._default = literal_eval(args)
+        self._state,self._default = _of_literal(args)
